@@ -26,10 +26,12 @@ import (
 	"fmt"
 	"io"
 	"math/rand"
+	"runtime"
 	"sort"
 	"strconv"
 	"strings"
 	"sync"
+	"sync/atomic"
 	"testing"
 	"time"
 
@@ -93,15 +95,98 @@ func cellsOf(seg []byte) unit {
 	return unit{[][]byte{seg[:len(seg)-tagSize], seg[len(seg)-tagSize:]}}
 }
 
+// vault is a caching key provider: it keeps the file key in memory - the very slice the WrapKeyFn was given - and
+// hands out the SAME retained bytes on every unwrap of the wrapped key it issued (a key cache / in-memory vault).
+type vault struct {
+	retained []byte // owned by the provider; Encrypt and Decrypt must never modify it
+	snapshot []byte
+	wfk      []byte
+}
+
+func (v *vault) unwrap(w []byte, alg, name string, nonce, tag []byte) ([]byte, error) {
+	if !bytes.Equal(w, v.wfk) {
+		return nil, errors.New("verif vault: unknown wrapped key")
+	}
+	return v.retained, nil
+}
+func (v *vault) intact() bool { return bytes.Equal(v.retained, v.snapshot) }
+func (v *vault) restore()     { copy(v.retained, v.snapshot) }
+
+// pool instrumentation: the "bufpool.put" hook counts the (deferred) Puts so that the harness can wait for the goroutine
+// of a stream to be done with its buffer; New is wrapped so that draining the pool knows when it is empty.
+var (
+	poolPuts  atomic.Int64
+	poolFresh atomic.Int64
+	poolPutCh = make(chan struct{}, 4096)
+)
+
+func instrumentPool() {
+	v1.VerifHook = func(point string, arg any) {
+		if point == "bufpool.put" {
+			poolPuts.Add(1)
+			select {
+			case poolPutCh <- struct{}{}:
+			default:
+			}
+		}
+	}
+	orig := v1.BufPool.New
+	v1.BufPool.New = func() any {
+		poolFresh.Add(1)
+		return orig()
+	}
+}
+
+func waitPuts(want int64) {
+	deadline := time.Now().Add(2 * time.Second)
+	for poolPuts.Load() < want && time.Now().Before(deadline) {
+		select {
+		case <-poolPutCh:
+		case <-time.After(50 * time.Millisecond):
+		}
+	}
+	for i := 0; i < 3; i++ {
+		runtime.Gosched()
+	}
+}
+
+// drainPool takes every buffer out of v1.BufPool (until the pool has to allocate a fresh one) and reports whether the
+// same buffer came out twice; every distinct buffer is given back once.  Exact with GOMAXPROCS(1) (one pool shard).
+func drainPool() (twice bool, n int) {
+	seen := map[*[]byte]bool{}
+	var all []*[]byte
+	for k := 0; k < 256; k++ {
+		fresh := poolFresh.Load()
+		p := v1.BufPool.Get().(*[]byte)
+		if poolFresh.Load() != fresh {
+			all = append(all, p)
+			break
+		}
+		if seen[p] {
+			twice = true
+			continue
+		}
+		seen[p] = true
+		all = append(all, p)
+		n++
+	}
+	for _, p := range all {
+		v1.BufPool.Put(p)
+	}
+	return twice, n
+}
+
 type honest struct {
-	cipher string
-	plain  []byte
-	doc    []byte
-	hdr    []byte
-	units  []unit
-	fk, np []byte
-	lines  [3][2]int // byte range of the three header lines (without LF)
-	b      [4][]unit // document B variants 1..3: two units each
+	vault        *vault
+	encKeyIntact bool
+	cipher       string
+	plain        []byte
+	doc          []byte
+	hdr          []byte
+	units        []unit
+	fk, np       []byte
+	lines        [3][2]int // byte range of the three header lines (without LF)
+	b            [4][]unit // document B variants 1..3: two units each
 }
 
 var honestCache = map[string]*honest{}
@@ -117,7 +202,8 @@ func mkHonest(cipher string, plainLen int, tag string) *honest {
 	enc, err := v1.Encrypt(bytes.NewReader(h.plain), v1.EncryptOptions{
 		WrapKeyFn: func(k []byte, alg, name string, nonce []byte) ([]byte, []byte, error) {
 			h.fk = append([]byte{}, k...)
-			return append([]byte{}, k...), nil, nil
+			h.vault = &vault{retained: k, snapshot: append([]byte{}, k...), wfk: pseudo(32, int64(len(key))+31)} // keeps what it was given
+			return append([]byte{}, h.vault.wfk...), nil, nil
 		}, KeyName: "c02-key", Algorithm: v1.KeyAlgorithmAES256KW, Cipher: &c})
 	if err != nil {
 		panic(err)
@@ -125,6 +211,9 @@ func mkHonest(cipher string, plainLen int, tag string) *honest {
 	if h.doc, err = io.ReadAll(enc); err != nil {
 		panic(err)
 	}
+	time.Sleep(200 * time.Microsecond)
+	h.encKeyIntact = h.vault.intact()
+	h.vault.restore()
 	ph, payload := encref.ParseHeader(h.doc)
 	if ph.ParseErr != "" {
 		panic("honest document does not parse: " + ph.ParseErr)
@@ -185,8 +274,10 @@ type run struct {
 	DocLen   int           `json:"docLen"`
 	Desc     string        `json:"desc"` // human-readable replay recipe
 	Script   encref.Script `json:"script"`
-	Unwrap   int           `json:"unwrap"` // 0 honest, 1 another key, 2 (nil, err), 3 empty key without error, 4 32 zero bytes + err, 5 32 other bytes + err, 6 16-byte key without error
-	Forged   bool          `json:"forged"` // the document was built by the adversary under the all-zero file key
+	Unwrap   int           `json:"unwrap"`  // 0 honest, 1 another key, 2 (nil, err), 3 empty key without error, 4 32 zero bytes + err, 5 32 other bytes + err, 6 16-byte key without error
+	Prior    bool          `json:"prior"`   // the honest document is decrypted first through the caching key provider
+	NoDrain  bool          `json:"noDrain"` // staged families: leave the pool as the run left it
+	Forged   bool          `json:"forged"`  // the document was built by the adversary under the all-zero file key
 	CBuf     int           `json:"cbuf"`
 	Pred     []int         `json:"pred"` // model prediction: released segments, term code (nil when not from the model)
 }
@@ -214,6 +305,29 @@ func execute(tb *tv.Batch, h *honest, r run) outcome {
 	headerOnly := len(h.plain) > 0 && bytes.Count(r.Doc, []byte{'\n'}) == 3 && r.Doc[len(r.Doc)-1] == '\n' // three header lines, no payload byte
 	tb.Start(tv.M{"class": r.Class, "len": len(h.plain), "mutated": mutated, "headerOnly": headerOnly, "forged": r.Forged, "cipher": r.Cipher})
 	b := &lockedBatch{b: tb}
+	if r.Class == "control" {
+		b.Ev("keycheck", tv.M{"intact": h.encKeyIntact, "after": "encrypt"})
+	}
+	if r.Prior {
+		// the honest caller decrypts the honest document first, through the same caching key provider (no repair of the cache afterwards)
+		before := poolPuts.Load()
+		if dec, err := v1.Decrypt(bytes.NewReader(h.doc), v1.DecryptOptions{UnwrapKeyFn: h.vault.unwrap}); err == nil {
+			_, _ = io.Copy(io.Discard, dec)
+			waitPuts(before + 2)
+		}
+	}
+	putsBefore := poolPuts.Load()
+	finish := func(o outcome, streams int64) outcome {
+		waitPuts(putsBefore + 1 + streams)
+		b.Ev("end", tv.M{"term": o.term, "released": o.released, "equal": o.equal})
+		b.Ev("keycheck", tv.M{"intact": h.vault.intact(), "after": "decrypt"})
+		h.vault.restore()
+		if !r.NoDrain {
+			twice, n := drainPool()
+			b.Ev("pool", tv.M{"twice": twice, "buffers": n})
+		}
+		return o
+	}
 	src := encref.New(r.Doc, r.Script, nil)
 	src.OnRead = func(k, n int, err error) {
 		if err != nil && err != io.EOF {
@@ -235,15 +349,15 @@ func execute(tb *tv.Batch, h *honest, r run) outcome {
 		case 6:
 			return pseudo(16, 4444), nil
 		}
-		return append([]byte{}, w...), nil
+		return h.vault.unwrap(w, alg, name, nonce, tag)
 	}
 	o := outcome{prefixOK: true}
 	dec, err := v1.Decrypt(src, v1.DecryptOptions{UnwrapKeyFn: unwrap})
 	if err != nil {
 		b.Ev("decrypt", tv.M{"err": true, "msg": err.Error()})
 		o.term = "decrypt-err"
-		b.Ev("end", tv.M{"term": o.term, "released": 0, "equal": len(h.plain) == 0})
-		return o
+		o.equal = len(h.plain) == 0
+		return finish(o, 0)
 	}
 	b.Ev("decrypt", tv.M{"err": false})
 	buf := make([]byte, r.CBuf)
@@ -278,8 +392,7 @@ func execute(tb *tv.Batch, h *honest, r run) outcome {
 		o.term = "hang"
 	}
 	o.equal = o.prefixOK && o.released == len(h.plain)
-	b.Ev("end", tv.M{"term": o.term, "released": o.released, "equal": o.equal})
-	return o
+	return finish(o, 1)
 }
 
 // ---------------------------------------------------------------------------
@@ -351,10 +464,11 @@ func parseScripts(out string) []script {
 var unwrapOutcome = []string{"succeeds", "other-key", "fails", "short-key", "zero-key-with-error", "other-key-with-error", "short-key"}
 
 // forge builds, with the README implementation, a document of the same shape as h under the all-zero file key:
-// header MAC and every segment are computed under keys derived from 32 zero bytes, the wfk is garbage.
+// header MAC and every segment are computed under keys derived from 32 zero bytes; the manifest values (wfk, nonce
+// prefix, key name) are those of the honest document, so the caller's key provider recognises the wrapped key.
 func forge(h *honest) (hdr []byte, units []unit, plain []byte) {
 	plain = pseudo(len(h.plain), 777)
-	doc, err := encref.Encrypt(plain, encref.EncryptOpts{FileKey: make([]byte, 32), NoncePrefix: h.np, Cph: encref.CipherIDs[h.cipher], Kw: 1, WFK: pseudo(32, 555), KeyName: "c02-key"})
+	doc, err := encref.Encrypt(plain, encref.EncryptOpts{FileKey: make([]byte, 32), NoncePrefix: h.np, Cph: encref.CipherIDs[h.cipher], Kw: 1, WFK: h.vault.wfk, KeyName: "c02-key"})
 	if err != nil {
 		panic(err)
 	}
@@ -423,6 +537,8 @@ func opClass(op [3]int, units []unit) string {
 		return "unwrap-" + unwrapOutcome[op[1]]
 	case 15:
 		return "forge-zero-key"
+	case 16:
+		return "prior-legit-decrypt"
 	}
 	return "?"
 }
@@ -438,6 +554,7 @@ func apply(h *honest, s script, rng *rand.Rand, variant int) run {
 	hdr := append([]byte{}, h.hdr...)
 	units := append([]unit{}, h.units...)
 	unwrap := 0
+	prior := false
 	forged := false
 	var classes []string
 	for _, op := range s.Ops {
@@ -491,6 +608,8 @@ func apply(h *honest, s script, rng *rand.Rand, variant int) run {
 			units = append(append([]unit{}, units...), h.b[bb][a-1])
 		case 14:
 			unwrap = a
+		case 16:
+			prior = true
 		}
 	}
 	var doc bytes.Buffer
@@ -502,7 +621,7 @@ func apply(h *honest, s script, rng *rand.Rand, variant int) run {
 			cellEnd = append(cellEnd, doc.Len())
 		}
 	}
-	r := run{Cipher: h.cipher, PlainLen: len(h.plain), Doc: doc.Bytes(), DocLen: doc.Len(), Unwrap: unwrap, Forged: forged, Script: encref.NoErr(),
+	r := run{Cipher: h.cipher, PlainLen: len(h.plain), Doc: doc.Bytes(), DocLen: doc.Len(), Unwrap: unwrap, Forged: forged, Prior: prior, Script: encref.NoErr(),
 		CBuf: []int{32 * 1024, segSize, 1000, segSize + 1}[variant%4], Pred: []int{s.PredRel, s.PredTerm}}
 	class := strings.Join(classes, "+")
 	if class == "" {
@@ -881,7 +1000,7 @@ func TestCheck(t *testing.T) {
 		var dw sync.WaitGroup
 		sem := make(chan struct{}, 3)
 		for _, d := range []string{"MC_tamper_strict.cfg", "MC_tamper_defect_nolastbind.cfg", "MC_tamper_defect_release-first.cfg", "MC_tamper_defect_swallow.cfg",
-			"MC_tamper_defect_zero-key-accepted.cfg", "MC_position_defect_wrap24.cfg", "MC_position_defect_wrap16.cfg", "MC_position_defect_last-overlaps.cfg"} {
+			"MC_tamper_defect_zero-key-accepted.cfg", "MC_tamper_defect_wipes-unwrapped-key.cfg", "MC_tamper_defect_double-put.cfg", "MC_position_defect_wrap24.cfg", "MC_position_defect_wrap16.cfg", "MC_position_defect_last-overlaps.cfg"} {
 			dw.Add(1)
 			go func(d string) {
 				defer dw.Done()
@@ -943,15 +1062,29 @@ func TestCheck(t *testing.T) {
 	classes := map[string]int{}
 	controlled := map[*honest]bool{}
 	start := time.Now()
+	instrumentPool()
+	defer runtime.GOMAXPROCS(runtime.GOMAXPROCS(1)) // one pool shard: what one stream puts back is what the next one gets
+	// harness sanity + key-provider / pool laws on the unmodified document: it decrypts
+	ensureControl := func(h *honest) bool {
+		if controlled[h] {
+			return true
+		}
+		controlled[h] = true
+		cr := run{Class: "control", Cipher: h.cipher, PlainLen: len(h.plain), DocLen: len(h.doc), Doc: h.doc, Script: encref.NoErr(), CBuf: 4096,
+			Desc: fmt.Sprintf("unmodified document of a %d-byte message (made by the real Encrypt through the caching key provider)", len(h.plain))}
+		o := execute(mb.cur(), h, cr)
+		mb.note(len(runs))
+		cr.Doc = nil
+		runs = append(runs, cr)
+		if o.term != "eof" || !o.equal {
+			e.Inconclusive(fmt.Sprintf("control: an unmodified %d-byte %s document does not decrypt (term=%s) - see C01", len(h.plain), h.cipher, o.term))
+			return false
+		}
+		return true
+	}
 	doRun := func(h *honest, r run) bool {
-		if !controlled[h] {
-			// harness sanity: the honest document decrypts, unmodified
-			controlled[h] = true
-			cb := &tv.Batch{}
-			if o := execute(cb, h, run{Class: "control", Doc: h.doc, Script: encref.NoErr(), CBuf: 4096}); o.term != "eof" || !o.equal {
-				e.Inconclusive(fmt.Sprintf("control: an unmodified %d-byte %s document does not decrypt (term=%s) - see C01", len(h.plain), h.cipher, o.term))
-				return false
-			}
+		if !ensureControl(h) {
+			return false
 		}
 		o := execute(mb.cur(), h, r)
 		mb.note(len(runs))
@@ -992,6 +1125,105 @@ func TestCheck(t *testing.T) {
 		}
 		sr[i].Doc = nil
 	}
+	// staged family: ONE tampered document is rejected, then 2..4 streams of different valid documents overlap, each behind
+	// a slow consumer with a small buffer; every stream must deliver its own plaintext (or end in an error)
+	nOverlap := 0
+	for ci, cph := range []string{cipherAES, cipherCC} {
+		for k := 2; k <= 4; k++ {
+			big := mkHonest(cph, 2*segSize+shortLen, "2seg+tail")
+			var hs []*honest
+			for j := 0; j < k; j++ {
+				hs = append(hs, mkHonest(cph, segSize+1000*(j+1)+j, fmt.Sprintf("overlap%d", j)))
+			}
+			for _, h := range append([]*honest{big}, hs...) {
+				if !ensureControl(h) {
+					return
+				}
+			}
+			// (a) the rejected document: one bit of the tag of stored segment (k+ci)%3 flipped
+			d := append([]byte{}, big.doc...)
+			off := len(big.hdr)
+			for u := 0; u <= (k+ci)%3; u++ {
+				off += len(big.units[u].bytes())
+			}
+			d[off-3] ^= 0x10
+			if !doRun(big, run{Class: "overlap-stage-reject", Cipher: cph, PlainLen: len(big.plain), DocLen: len(d), Doc: d, Script: encref.NoErr(), CBuf: 5000, NoDrain: true,
+				Desc: fmt.Sprintf("stage 1 of the overlap family: tag of stored segment %d flipped (the pool is left as this run leaves it)", (k+ci)%3)}) {
+				return
+			}
+			// (b) open the k streams one after the other; each loop goroutine reads its first segment, opens it in place and blocks on its pipe
+			type stream struct {
+				h        *honest
+				dec      io.Reader
+				err      error
+				rel      []tv.M
+				released int
+				prefixOK bool
+				term     string
+			}
+			putsBefore := poolPuts.Load()
+			var sts []*stream
+			for _, h := range hs {
+				st := &stream{h: h, prefixOK: true}
+				src := encref.New(h.doc, encref.NoErr(), nil)
+				st.dec, st.err = v1.Decrypt(src, v1.DecryptOptions{UnwrapKeyFn: h.vault.unwrap})
+				need := len(h.hdr) + unitSize + 1
+				for t0 := time.Now(); src.Pos() < need && time.Since(t0) < 100*time.Millisecond; {
+					time.Sleep(50 * time.Microsecond)
+				}
+				time.Sleep(300 * time.Microsecond)
+				sts = append(sts, st)
+			}
+			// (c) the consumers read, last stream first, 700 bytes at a time
+			for j := len(sts) - 1; j >= 0; j-- {
+				st := sts[j]
+				if st.err != nil {
+					st.term = "decrypt-err"
+					continue
+				}
+				buf := make([]byte, 700)
+				for t0 := time.Now(); ; {
+					n, err := st.dec.Read(buf)
+					if n > 0 {
+						if st.released+n > len(st.h.plain) || !bytes.Equal(buf[:n], st.h.plain[st.released:st.released+n]) {
+							st.prefixOK = false
+						}
+						st.released += n
+						st.rel = append(st.rel, tv.M{"n": n, "prefixOK": st.prefixOK})
+					}
+					if err != nil {
+						st.term = map[bool]string{true: "eof", false: "err"}[err == io.EOF]
+						break
+					}
+					if time.Since(t0) > 30*time.Second {
+						st.term = "hang"
+						break
+					}
+				}
+			}
+			waitPuts(putsBefore + int64(2*k))
+			for j, st := range sts {
+				b := mb.cur()
+				b.Start(tv.M{"class": "overlap-after-reject", "len": len(st.h.plain), "mutated": false, "headerOnly": false, "forged": false, "cipher": cph, "streams": k, "stream": j})
+				b.Ev("decrypt", tv.M{"err": st.err != nil})
+				for _, m := range st.rel {
+					b.Ev("release", m)
+				}
+				b.Ev("end", tv.M{"term": st.term, "released": st.released, "equal": st.prefixOK && st.released == len(st.h.plain)})
+				b.Ev("keycheck", tv.M{"intact": st.h.vault.intact(), "after": "decrypt"})
+				st.h.vault.restore()
+				if j == len(sts)-1 {
+					twice, n := drainPool()
+					b.Ev("pool", tv.M{"twice": twice, "buffers": n})
+				}
+				mb.note(len(runs))
+				runs = append(runs, run{Class: "overlap-after-reject", Cipher: cph, PlainLen: len(st.h.plain), DocLen: len(st.h.doc), CBuf: 700, Script: encref.NoErr(),
+					Desc: fmt.Sprintf("stream %d of %d overlapping Decrypt streams of different valid documents (%d-byte message) opened right after one tampered document was rejected; consumers read last-opened first, 700 bytes at a time", j+1, k, len(st.h.plain))})
+				classes["overlap-after-reject"]++
+				nOverlap++
+			}
+		}
+	}
 	fmt.Printf("replayed %d runs of the real Decrypt (%d from model scripts, %d from byte-level sweeps) in %s; model/real outcome disagreements (drift): %d\n",
 		len(runs), nScriptRuns, len(runs)-nScriptRuns, time.Since(start).Round(time.Millisecond), drift)
 
@@ -1009,6 +1241,9 @@ func TestCheck(t *testing.T) {
 		e.Set("drift_samples", driftSamples)
 	}
 	e.Set("mutation_classes", classes)
+	e.Set("overlap_streams", nOverlap)
+	e.Set("key_provider", "caching vault: the unwrap callback returns the same retained slice (the one WrapKeyFn was given) on every call; checked intact after every Encrypt / Decrypt")
+	e.Set("pool_discipline", "after every run v1.BufPool is drained (GOMAXPROCS=1) and no buffer may come out twice")
 	e.Set("evaluations", int64(len(runs)))
 	e.Set("rule", "run = (honest document made by the real Encrypt: shape 0..3 segments / last short or full / small / 2-segment+tail, cipher) x (mutation: model script of <=2 (3) adversary operations exported by TLC, or byte-level sweep item: bit position, cut offset, appended bytes) x (source failure: offset class, error value, alone / with the final data, sticky / returned once, reader chunking) x wrong unwrapped key; "+
 		"every run is non-trivial (it is a mutation or a failure); distinct by (cipher, recipe, class)")
@@ -1031,6 +1266,28 @@ func TestCheck(t *testing.T) {
 			if r.Forged && strings.HasPrefix(rj.Why, "forged document") {
 				key = "forged-under-zero-key:unwrap-" + unwrapOutcome[r.Unwrap]
 				what = fmt.Sprintf("Decrypt accepted a document FORGED under the all-zero file key when the unwrap callback %s [%s, %s]: %s", unwrapOutcome[r.Unwrap], r.Cipher, r.Desc, rj.Why)
+			}
+			if r.Forged && r.Prior && strings.HasPrefix(rj.Why, "forged document") {
+				key = "forged-under-zero-key:after-legit-decrypt-through-caching-unwrap"
+			}
+			if strings.HasPrefix(rj.Why, "caller's retained key") {
+				after := "decrypt"
+				if strings.Contains(b.TraceStrings(rj.Trace)[rj.At], `"after":"encrypt"`) {
+					after = "encrypt"
+				}
+				key = "caller-key-modified:after-" + after
+				what = fmt.Sprintf("the key bytes retained by the caller's key provider (the slice the unwrap callback returns / the wrap callback was given) were modified by %s [first seen: %s, %s, %s]", after, r.Class, r.Cipher, r.Desc)
+			}
+			if strings.HasPrefix(rj.Why, "pooled buffer") {
+				term := "?"
+				for _, l := range b.TraceStrings(rj.Trace) {
+					if j := strings.Index(l, `"term":"`); j >= 0 && strings.Contains(l, `"ev":"end"`) {
+						term = l[j+8:]
+						term = term[:strings.IndexByte(term, '"')]
+					}
+				}
+				key = "bufpool-double-put:stream-ended-" + term
+				what = fmt.Sprintf("after a Decrypt whose stream ended in %q the same buffer is in v1.BufPool twice [first seen: %s, %s, %s]", term, r.Class, r.Cipher, r.Desc)
 			}
 			if rj.Why == namedWhy {
 				key = namedKey
